@@ -155,92 +155,8 @@ verif_harness! {
     }
 }
 
-//@ harness name=serpent_key_pad prop=C08,C20 tier=quick bits=261 est=10 desc="L: expand_key(key[..len], 8 len) == key || bit 1 || zeros for every byte length len in 16..=32 (symbolic) and every key"
-verif_harness! {
-    name: serpent_key_pad,
-    bytes: 33,
-    unwind: 40,
-    prop: |inp| {
-        let key: [u8; 32] = take(inp, 0);
-        let len = inp[32] as usize;
-        vassume!(len >= 16 && len <= 32);
-        Some(crate::expand_key(&key[..len], len * 8) == r::pad_key(&key, len))
-    }
-}
-
-// expand_key is a leaf of the key schedule: serpent_key_pad proves what it returns for every (key, len); here it is
-// replaced by a recorder that logs its arguments and returns an arbitrary 256-bit value P (primary input), so that
-// the (large) key-schedule query does not depend on the symbolic length.
-#[cfg(kani)]
-pub mod xk {
-    pub static mut RET: [u8; 32] = [0; 32];
-    pub static mut SRC: [u8; 32] = [0; 32];
-    pub static mut LEN: usize = 0;
-    pub static mut BITS: usize = 0;
-    pub static mut CALLS: usize = 0;
-}
-#[cfg(kani)]
-pub fn stub_expand_key(source: &[u8], len_bits: usize) -> [u8; 32] {
-    unsafe {
-        xk::CALLS += 1;
-        xk::LEN = source.len();
-        xk::BITS = len_bits;
-        let mut i = 0;
-        while i < 32 {
-            if i < source.len() {
-                xk::SRC[i] = source[i];
-            }
-            i += 1;
-        }
-        xk::RET
-    }
-}
-#[cfg(not(kani))]
-pub fn stub_expand_key(source: &[u8], len_bits: usize) -> [u8; 32] {
-    crate::expand_key(source, len_bits)
-}
-
-//@ harness name=serpent_key_schedule prop=C08,C20 tier=quick bits=517 stub=1 est=205 need=10 desc="W: Serpent::new_from_slice(key[..len]) for symbolic len in 16..=32, every key: expand_key is called exactly once with (key[..len], 8 len) and, for every 256-bit value P it may return, round_keys == oracle(P): prekey recurrence w_i = (w_i-8 ^ w_i-5 ^ w_i-3 ^ w_i-1 ^ PHI ^ i) <<< 11, K_i = S_{(3-i) mod 8}(w_4i..w_4i+3), little-endian words; apply_s uninterpreted (shared); with serpent_key_pad: P = key || 1 || 0.."
-verif_harness! {
-    name: serpent_key_schedule,
-    bytes: 65,
-    unwind: 140,
-    stubs: [(crate::bitslice::apply_s, stub_s), (crate::expand_key, stub_expand_key)],
-    prop: |inp| {
-        let key: [u8; 32] = take(inp, 0);
-        let len = inp[32] as usize;
-        vassume!(len >= 16 && len <= 32);
-        #[cfg(kani)]
-        let p: [u8; 32] = take(inp, 33);
-        #[cfg(kani)]
-        unsafe {
-            xk::RET = p;
-        }
-        // native replay runs the real expand_key (stubs do not exist there)
-        #[cfg(not(kani))]
-        let p: [u8; 32] = crate::expand_key(&key[..len], len * 8);
-        let c = match Serpent::new_from_slice(&key[..len]) {
-            Ok(c) => c,
-            Err(_) => return Some(false),
-        };
-        #[cfg(kani)]
-        unsafe {
-            vcheck!(xk::CALLS == 1 && xk::LEN == len && xk::BITS == 8 * len);
-            let mut j = 0;
-            while j < 32 {
-                vcheck!(j >= len || xk::SRC[j] == key[j]);
-                j += 1;
-            }
-        }
-        let e = r::key_schedule_with(&p, stub_s);
-        let mut i = 0;
-        while i < 33 {
-            vcheck!(c.round_keys[i] == e[i]);
-            i += 1;
-        }
-        Some(true)
-    }
-}
+// serpent_key_pad and serpent_key_schedule name the private helper `expand_key`; they live in conf_priv.rs (own shadow variant
+// serpent:priv), so that a refactoring of that helper cannot stop the harnesses of THIS file from compiling.
 
 fn arb_state(inp: &[u8; 544]) -> (Serpent, [[u32; 4]; 33], [u8; 16]) {
     let mut rk = [[0u32; 4]; 33];
